@@ -39,6 +39,7 @@ MODES = [
     ("bdd::BDDEnv::fp", ["fp", "formula"]),
     ("bdd::BDDEnv::", ["ops", "quant", "count", "formula"]),
     ("symbols::", ["ops", "formula", "quant"]),
+    ("cli::", ["clitable", "cli"]),
 ]
 
 
@@ -82,6 +83,14 @@ def search(pid, fl, b, tier, seed, binary=None):
             raise RuntimeError("replay crate does not build against the current tree: " + err)
     budget = "20000" if tier == "thorough" else "3000"
     for mode in modes_for(fl.fid):
+        if mode in ("cli", "clitable"):
+            # the printers live in the binary crate: the failing input is a run of the real binary
+            from . import clisweep
+            d, _, cerr = {"cli": clisweep.sweep, "clitable": clisweep.sweep_table}[mode](REPO, int(budget), seed)
+            if d is not None and d.get("case") is not None:
+                d["cmd"] = "the rsbdd binary built from /repo, run on this case (./check replay <file>)"
+                return d
+            continue
         try:
             p = subprocess.run([binary, "search", mode, budget, str(seed)], capture_output=True, text=True, timeout=900 if tier == "thorough" else 240)
         except subprocess.TimeoutExpired:
